@@ -194,7 +194,9 @@ class Engine:
             if self.branch(i == k): return k
         raise Infeasible()
 
-    def explore(self, run, max_paths=100000, time_limit=None):
+    def explore(self, run, max_paths=100000, time_limit=None, slim=False):
+        """slim: do not keep the path condition / event list of successful paths (beyond the first few, kept as samples) -
+        long explorations otherwise hold every formula of every path in memory"""
         self.pending = [[]]; results = []
         t0 = time.time()
         while self.pending:
@@ -206,7 +208,10 @@ class Engine:
             self.stats['paths'] += 1
             try:
                 r = run(self)
-                results.append(Path('ok', r, list(self.pc), self.events, list(self.decisions), notes=self.notes))
+                if slim and len(results) >= 4:
+                    results.append(Path('ok', r, ['(path condition not kept)'] if self.pc else [], [], list(self.decisions), notes={}))
+                else:
+                    results.append(Path('ok', r, list(self.pc), self.events, list(self.decisions), notes=self.notes))
             except Panic as p:
                 results.append(Path('panic', None, list(self.pc), self.events, list(self.decisions), msg=p.msg, where=p.where or self.where(), notes=self.notes))
             except Infeasible:
